@@ -310,7 +310,7 @@ func c16r3(c *Ctx) {
 	}
 	// (a) store of the new schedule and every SetNewGasConfig call are cut by the decoder's success
 	n := 0
-	var newCfg string
+	var newCfg, storedCfg string
 	for _, b := range change.Blocks {
 		for _, in := range b.Instrs {
 			switch x := in.(type) {
@@ -318,6 +318,7 @@ func c16r3(c *Ctx) {
 				if fa, ok := x.Addr.(*ssa.FieldAddr); ok && strings.HasSuffix(fa.Type().String(), modPath+".GasCost") {
 					n++
 					newCfg = e.Term(fa)
+					storedCfg = e.Term(x.Val) // the same pointer: handing on the local is handing on the stored schedule
 					construct := "store " + e.Term(fa) + " = " + e.Term(x.Val)
 					_, cut := e.CutAt(x, decodeOK, nil)
 					isResult := false
@@ -337,7 +338,7 @@ func c16r3(c *Ctx) {
 					n++
 					construct := "broadcast SetNewGasConfig(" + e.Term(x.Common().Args[0]) + ")"
 					_, cut := e.CutAt(x, decodeOK, nil)
-					if cut && e.Term(x.Common().Args[0]) == "*"+newCfg {
+					if at := e.Term(x.Common().Args[0]); cut && (at == "*"+newCfg || storedCfg != "" && at == storedCfg) {
 						c.OK(rule, FuncName(change), construct, c.P.InstrPos(x), "only after successful validation, with the stored schedule")
 					} else {
 						c.Fail(rule, "violation", FuncName(change), construct, c.P.InstrPos(x), "functions can be repriced with a schedule that was rejected, or with another object than the stored one")
